@@ -247,7 +247,7 @@ def gen_cases(rng, tier, escalate=False):
         pool = [f for f in F_KINDS if f[0] not in TOP_ONLY and (f[0], ck[0]) not in EXCLUDED]
         for f in rng.sample(pool, 5):
             chosen.append((f, ck))
-    extra = rng.sample(rest, 120)
+    extra = rng.sample(rest, 60)
     seen, cases = set(), list(top)
     for f, c in chosen + extra:
         if (f[0], c[0]) in seen:
@@ -313,12 +313,12 @@ def evaluate(cases, result, tier):
                 "what": ("the catch branch saw the object of an EARLIER swallowed failure (documented deviation)" if known else
                          "c18_oracle is false: the catch branch did not run / ran when it must not / saw another code or message than the uncaught twin reports")})
     # ---- lock-step of the executor model on the same scripts --------------------------------------
-    # quick tier: every third case (all of them in the thorough tier and in replays)
+    # quick tier: every fifth case (all of them in the thorough tier and in replays)
     ecases, eowner = [], []
     for ci, c in enumerate(cases):
         if c.get("cur_script"):
             continue
-        if tier != "thorough" and len(cases) > 30 and ci % 3 != 0:
+        if tier != "thorough" and len(cases) > 30 and ci % 5 != 0:
             continue
         for which in ("caught", "uncaught"):
             ecases.append(exec_case(c, which))
